@@ -46,6 +46,10 @@ func setupBase(b *base) sdk.Context {
 	b.toks["FX"] = scen.RegisterFX(w, ctx, b.os, nonces, 1000)
 	b.toks["usdt"] = scen.RegisterModuleToken(w, ctx, "USDT", b.os, nonces, 1000)
 	b.toks["tok"] = scen.RegisterExternalToken(w, ctx, w.A("u1"), "TOK", 1000, b.os, nonces, 1000)
+	// an externally-owned pair whose token is of the pre-standard kind: transfer answers false instead of reverting
+	lgc := w.Deploy(ctx, w.A("u1"), evmasm.LegacyTokenInit("Legacy Token", "LGC"))
+	w.MustDeliver(ctx, &erc20types.MsgRegisterERC20{Authority: world.GovAuthority(), Erc20Address: lgc.String(), Aliases: []string{"eth" + scen.ExtAddr("eth", "lgc-token")}})
+	b.toks["lgc"] = scen.Token{Name: "lgc", Base: "lgc", Kind: "external", ERC20: lgc, Ext: map[string]string{}, Bridge: map[string]string{}, Decimals: 18}
 	n := nonces["eth"]
 	for _, u := range []string{"u1", "u2"} {
 		n++
@@ -272,6 +276,8 @@ func (s *Spec) Ops(st *explore.State) []explore.Op {
 		ops = append(ops, s.convToAddrOp(t, true, 1, "erc20-module", erc20Module()), s.convToAddrOp(t, false, 1, "erc20-module", erc20Module()))
 		ops = append(ops, s.convToAddrOp(t, true, 1, "token-contract", s.b.toks[t].ERC20), s.convToAddrOp(t, true, 1, "precompile", cctypes.GetAddress()))
 	}
+	// the pre-standard token: its holder converts, and an account that holds none of it tries to (transfer answers false)
+	ops = append(ops, s.convOp("u1", "lgc", false, 2, "u1"), s.convOp("u1", "lgc", true, 3, "u1"), s.convOp("u2", "lgc", false, 2, "u2"), s.convOp("u1", "lgc", true, 1, "u2"))
 	gov := func(name string, msg sdk.Msg) explore.Op {
 		return explore.Op{Name: name, Run: func(c *explore.State) {
 			r := w.Deliver(c.Ctx, msg)
